@@ -14,10 +14,10 @@ RULE = ("each case: an original file of 0-200 bytes and up to 20 operations: del
         "download position / the current size / the start or end of an earlier overwrite, set_size(smaller|larger), read(offset, length), finish. While a read is pending only "
         "download chunks are delivered (the class documents that callers serialise overwrites behind reads). Model: bytearray with writes and size changes applied in order, "
         "zero fill for gaps. Oracle: every completed read equals the model slice taken when the read was issued (EOFError at/after EOF); after the download has delivered "
-        "everything, the temporary file's first current_size bytes equal the model. Non-trivial = an overwrite that starts ahead of the download position and overlaps or "
+        "everything, the whole temporary file (what close() uploads: read to EOF, so its length counts) equals the model. Non-trivial = an overwrite that starts ahead of the download position and overlaps or "
         "nests inside an earlier pending overwrite; distinct by whole case.")
 LEVEL_TEXT = "Random histories against a byte-array model, with offsets generated relative to the state that matters (download position, pending overwrites)."
-ASSUMPTIONS = ["a plain temporary file stands in for EncryptedTemporaryFile (same file API)", "reads, writes and size changes are serialised by the caller, as GeneralSFTPFile's request queue does"]
+ASSUMPTIONS = ["the temporary file is the real EncryptedTemporaryFile (key from the seeded urandom); what close() would upload is the whole file read to EOF", "reads, writes and size changes are serialised by the caller, as GeneralSFTPFile's request queue does"]
 REQUIRED_CLASSES = ["overwrite-ahead", "overwrite-nested-in-pending", "overwrite-overlaps-pending", "overwrite-behind", "overwrite-past-eof", "truncate", "extend", "read-waits-for-download", "read-eof"]
 BUDGET = {"quick": 600, "thorough": 3600}
 
@@ -52,7 +52,8 @@ def run_shard(spec, ctx):
 def run_case(case, ctx):
     from allmydata.frontends.sftpd import OverwriteableFileConsumer
     original = pbytes(1, case["size"])
-    c = OverwriteableFileConsumer(len(original), tempfile.TemporaryFile)
+    from allmydata.util.fileutil import EncryptedTemporaryFile
+    c = OverwriteableFileConsumer(len(original), EncryptedTemporaryFile)      # the maker GeneralSFTPFile uses
     model = bytearray(original)
     delivered = 0
     pending_ow = []       # (start, end) of client overwrites not yet passed by the download
@@ -177,7 +178,9 @@ def run_case(case, ctx):
     ctx.check(c.get_current_size() == len(model), "size-differs", "%s: current size %d, model %d" % (desc, c.get_current_size(), len(model)))
     f = c.get_file()
     f.seek(0)
-    final = f.read(c.get_current_size())
+    final = f.read()          # close() hands the whole temporary file to the uploader (FileHandle / MutableFileHandle read to EOF)
+    if len(final) != len(model):
+        classes.add("final-length-differs")
     if final != bytes(model):
         first = next((i for i in range(min(len(final), len(model))) if final[i] != model[i]), min(len(final), len(model)))
         src = "the original file's byte (downloaded data clobbered a client write)" if first < len(original) and first < len(final) and final[first] == original[first] else "neither the model's nor obviously the original's byte"
